@@ -43,6 +43,8 @@ type World struct {
 	specFiles      []string
 
 	tparams     map[string]types.Type // type parameters of the generic function being verified
+	tsubst      map[string]types.Type // while a generic callee's contract is applied: its type parameters' instances
+	writeOnceC  map[*ssa.Global]bool  // cache of writeOnce
 	assumptions map[string]bool // collected textual assumptions for evidence
 	errors      []string
 }
@@ -484,6 +486,9 @@ func (w *World) sortOf(d *Decls, t types.Type) *Sort {
 		w.declStruct(d, si)
 		return si.Sort
 	case *types.TypeParam:
+		if t := w.tsubst[x.Obj().Name()]; t != nil {
+			return w.sortOf(d, t) // contract of a generic function applied at an instantiated call site
+		}
 		if el := typeParamPointerElem(x); el != nil {
 			return SPtr
 		}
@@ -790,4 +795,68 @@ func (w *World) noteUsedLemma(n string) {
 		w.usedLemmas = map[string]bool{}
 	}
 	w.usedLemmas[n] = true
+}
+
+// writeOnce: the package variable is stored to only by its package's init functions (checked over all function bodies of
+// its package, closures included): its value never changes afterwards.
+func (w *World) writeOnce(g *ssa.Global) bool {
+	if w.writeOnceC == nil {
+		w.writeOnceC = map[*ssa.Global]bool{}
+	}
+	if v, ok := w.writeOnceC[g]; ok {
+		return v
+	}
+	res := true
+	pkg := g.Pkg
+	if pkg == nil {
+		w.writeOnceC[g] = false
+		return false
+	}
+	var scan func(f *ssa.Function)
+	scan = func(f *ssa.Function) {
+		if f == nil || !res {
+			return
+		}
+		isInit := f.Name() == "init" || strings.HasPrefix(f.Name(), "init#")
+		for _, b := range f.Blocks {
+			for _, in := range b.Instrs {
+				switch x := in.(type) {
+				case *ssa.Store:
+					if x.Addr == ssa.Value(g) && !isInit {
+						res = false
+					}
+				default:
+					// the address escaping (passed to a call, stored, converted) could allow other writes
+					if !isInit {
+						for _, op := range in.Operands(nil) {
+							if op != nil && *op == ssa.Value(g) {
+								if u, ok := in.(*ssa.UnOp); ok && u.Op == token.MUL {
+									continue
+								}
+								res = false
+							}
+						}
+					}
+				}
+			}
+		}
+		for _, a := range f.AnonFuncs {
+			scan(a)
+		}
+	}
+	for _, m := range pkg.Members {
+		switch x := m.(type) {
+		case *ssa.Function:
+			scan(x)
+		case *ssa.Type:
+			for _, t := range []types.Type{x.Type(), types.NewPointer(x.Type())} {
+				ms := w.prog.MethodSets.MethodSet(t)
+				for i := 0; i < ms.Len(); i++ {
+					scan(w.prog.MethodValue(ms.At(i)))
+				}
+			}
+		}
+	}
+	w.writeOnceC[g] = res
+	return res
 }
